@@ -37,9 +37,11 @@ def run(ctx):
             ctx.traces_ok += 1
     ctx.sample({"cred_case": recs[len(recs) // 2]})
     # tunnels to different sites opened through one upstream proxy at the same time (Pipeline.tla CredConc)
-    for rnd in range(2 if q else 8):
-        out = ctx.run_vh(binp, ["c06-conc"], timeout=600)
-        out, crashed = ctx.nocrash(out, "C06:crash")
+    binr = ctx.build(out="vh-race", race=True)     # the last round under the race detector (shared per-request state)
+    rounds = 2 if q else 8
+    for rnd in range(rounds + 1):
+        out = ctx.run_vh(binr if rnd == rounds else binp, ["c06-conc"], timeout=900)
+        out, crashed = ctx.nocrash(out, "C06:site-auth:concurrent-connects:data-race" if rnd == rounds else "C06:crash")
         for r in out:
             ctx.evaluations += r.get("seen", 1)
             ctx.nontrivial.add("conc:%d" % rnd)
